@@ -49,10 +49,28 @@ def _one(item):
                 arr = big[::-2, :, 1:-2]
             writers.numpy_to_sgz(p, arr, writers.rate_arg(rate), bs)
             src = cube
-        elif route in ('segy', 'segy-iops', 'segy-ibm', 'segy-reuse', 'segy-strip', 'segy-thorough', 'segy-window', 'segy-window-iops', 'segy-windowil', 'segy-windowil-iops'):
+        elif route == 'numpy-reuse':     # one converter object, two outputs, the caller's array modified in between: the last file is judged
+            from seismic_zfp.conversion import NumpyConverter
+            arr = cube.copy()
+            with env.quiet():
+                with NumpyConverter(arr) as cv:
+                    cv.run(p + '.first', bits_per_voxel=writers.rate_arg(rate), blockshape=bs)
+                    arr[-1, -1, -1] += np.float32(1.5)
+                    arr[0, 0, 0] = -arr[0, 0, 0] if arr[0, 0, 0] != 0 else np.float32(2.0)
+                    cv.run(p, bits_per_voxel=writers.rate_arg(rate), blockshape=bs)
+            os.remove(p + '.first')
+            src = arr
+        elif route in ('segy', 'segy-iops', 'segy-ibm', 'segy-ibm-iops-odd', 'segy-ibm-odd', 'segy-reuse', 'segy-strip', 'segy-thorough', 'segy-window', 'segy-window-iops', 'segy-windowil', 'segy-windowil-iops'):
             sgy = os.path.join(d, f'h{k}.sgy')
             inputs.write_segy(sgy, cube, np.arange(shape[0]) + 1, np.arange(shape[1]) + 1, np.arange(shape[2]) * 4.0,
-                              fmt=1 if route == 'segy-ibm' else 5)
+                              fmt=1 if route.startswith('segy-ibm') else 5)
+            if route.endswith('-odd'):      # IBM words a decoder can get wrong without anyone noticing on ordinary data: negative zero, an
+                # unnormalised fraction, a value below the IEEE normal range - written into samples of a later inline, in place
+                tb = 240 + 4 * shape[2]
+                with open(sgy, 'r+b') as fh:
+                    for t, j, word in ((shape[1] + 1, 2, 0x80000000), (shape[1] + 2, 3, 0x41010000), (2 * shape[1], 1, 0x21100000), (1, 0, 0x80000000)):
+                        fh.seek(3600 + t * tb + 240 + 4 * j)
+                        fh.write(word.to_bytes(4, 'big'))
             with segyio.open(sgy, strict=False) as f:
                 src = np.stack([np.asarray(f.trace[t]) for t in range(f.tracecount)]).astype(np.float32)
             if route.startswith('segy-window'):        # an ordinal window: the hash is that of the windowed traces
@@ -67,7 +85,7 @@ def _one(item):
                         cv.run(p, bits_per_voxel=writers.rate_arg(rate), blockshape=bs)
                 os.remove(p + '.first')
             else:
-                writers.segy_to_sgz(sgy, p, writers.rate_arg(rate), bs, reduce_iops=(route == 'segy-iops'),
+                writers.segy_to_sgz(sgy, p, writers.rate_arg(rate), bs, reduce_iops=(route in ('segy-iops', 'segy-ibm-iops-odd')),
                                     header_detection={'segy-strip': 'strip', 'segy-thorough': 'thorough'}.get(route, 'heuristic'))
         else:   # 2d
             sgy = os.path.join(d, f'h{k}.sgy')
@@ -118,6 +136,9 @@ def plan(run):
                 P.append((route, shape, rate, bs, None))
     for shape, rate, bs in (((5, 6, 70), 8, None), ((9, 4, 33), 32, (8, 8, 16))):
         P.append(('segy-reuse', shape, rate, bs, None))
+        P.append(('numpy-reuse', shape, rate, (4, 4, -1) if bs is None else bs, None))
+        P.append(('segy-ibm-odd', shape, rate, bs, None))
+        P.append(('segy-ibm-iops-odd', shape, rate, bs, None))
     for shape, rate, bs in (((5, 6, 70), 16, (4, 4, -1)), ((9, 4, 33), 32, (8, 8, 16)), ((6, 8, 64), 32, (4, 4, -1)), ((9, 9, 9), 32, (16, 16, 4))):
         P.append(('numpy-F', shape, rate, bs, None))
         P.append(('numpy-view', shape, rate, bs, None))
